@@ -45,7 +45,9 @@ def fresh_like(I, v, base='hv'):
 
 
 class LoopSpec:
-    def __init__(self, modifies, invariant, decreases=None, props=(), typed_locals=None, name='loop'):
+    def __init__(self, modifies, invariant, decreases=None, props=(), typed_locals=None, name='loop', entry_ghost=None, defines=None):
+        self.entry_ghost = entry_ghost or {}
+        self.defines = defines or {}
         self.modifies = modifies
         self.invariant = invariant      # list of (name, text)
         self.decreases = decreases
@@ -90,6 +92,14 @@ class LoopSpec:
                 I.st.heap[d.loc] = c.replace(vals=z3.Const(sym.fresh_name('vals'), c.vals.sort()))
             else:
                 raise Unsupported('havoc target %s' % tgt)
+        # `defines`: the havocked container is given a *shape* (e.g. [h] + tail) instead of an opaque fresh value
+        for tgt, text in self.defines.items():
+            v = I.eval_spec(text, fr, old_st=getattr(I, 'contract_pre', None),
+                            old_frame=getattr(I, 'contract_pre_frame', None))
+            t, k = I.seq_term(v)
+            obj = fr.locals['self']
+            cur = I.get_attr(obj, tgt[5:], fr)
+            I.st.set_list_term(cur.loc, t)
 
     def _inv_formulas(self, I, fr, contract_pre, extra):
         sf = Frame(fr.qual, fr.locals)
@@ -115,6 +125,7 @@ class LoopSpec:
     def run_for(self, I, node, it, fr):
         t, k = I.seq_term(it)
         self._type_locals(I, fr)
+        self._capture_entry(I, fr)
         S = VSeq(t, k)
         which = I.choose(3, 'loop_%s' % self.name)
         if which == 0:
@@ -141,8 +152,18 @@ class LoopSpec:
         I.exec_block(node.orelse, fr)
 
     # -- while loops
+    def _capture_entry(self, I, fr):
+        for name, text in self.entry_ghost.items():
+            v = I.eval_spec(text, fr, old_st=getattr(I, 'contract_pre', None),
+                            old_frame=getattr(I, 'contract_pre_frame', None))
+            if isinstance(v, VList):
+                t, k = I.seq_term(v)
+                v = VSeq(t, k)
+            I.st.ghost[name] = v
+
     def run_while(self, I, node, fr):
         self._type_locals(I, fr)
+        self._capture_entry(I, fr)
         which = I.choose(3, 'loop_%s' % self.name)
         if which == 0:
             self._check(I, fr, {}, 'base')
